@@ -302,6 +302,10 @@ class SoundSpeedEquivalence(Equivalence):
             return np.sqrt(v2, out=self._get_out(x))
         elif new_dims == temperature:
             if x.units.dimensions == velocity:
+                if x.dtype.kind in "iu" and not self.in_place:
+                    # the square of an integer velocity overflows the integer type
+                    # (in place, the buffer has been retyped to float by then)
+                    x = x.astype("float64")
                 v2 = np.multiply(x, x, out=self._get_out(x))
                 kT = np.multiply(v2, mu * pc.mh / gamma, out=self._get_out(x))
                 return np.true_divide(kT, pc.kboltz, out=self._get_out(x))
@@ -309,6 +313,8 @@ class SoundSpeedEquivalence(Equivalence):
                 return np.true_divide(x, pc.kboltz, out=self._get_out(x))
         else:
             if x.units.dimensions == velocity:
+                if x.dtype.kind in "iu" and not self.in_place:
+                    x = x.astype("float64")
                 v2 = np.multiply(x, x, out=self._get_out(x))
                 return np.multiply(mu * pc.mh / gamma, v2, out=self._get_out(x))
             else:
